@@ -9,22 +9,22 @@ GOENV = "GOFLAGS=-mod=mod GOPROXY=off GOSUMDB=off GOTOOLCHAIN=local GOWORK=off"
 
 CLAIMED = {
   "C01": dict(
-    text="Whole-program static taint analysis over go/ssa with call/return matching (realizable paths, parameter->result summaries), field-based for servitor structs: it proves that on no path does a value derived from the TLS connection, a document file, a string asserted out of untyped JSON, or text re-materialised by the HTML parser (entity-decoded text nodes and attribute values, percent-decoded URL components) reach the terminal callback, a direct terminal write, or the text/preview/name of any item or any Markup.Render result without passing ansi.Scrub; the SGR parameter of ansi.Apply is shown to be built from constants and validated configuration colours only, and escape bytes in literals are confined to the SGR generator. A sanitiser-before-sink property is visible in the shape of the code, so one rule instance covers every document, markup type, header line and width at once.",
+    text="Whole-program static taint analysis over go/ssa with call/return matching (realizable paths, parameter->result summaries), field-based for servitor structs: it proves that on no path does a value derived from the TLS connection, a document file, a string asserted out of untyped JSON, or text re-materialised by the HTML parser (entity-decoded text nodes and attribute values, percent-decoded URL components) reach the terminal callback, a direct terminal write, or the text/preview/name of any item or any Markup.Render result without passing ansi.Scrub; the SGR parameter of ansi.Apply is shown to be built from constants and validated configuration colours only, and escape bytes in literals are confined to the SGR generator; results of library decoders (html.UnescapeString, url.PathUnescape, strconv.Unquote, base64/hex) are sources in their own right; and ansi.Scrub itself is shape-checked: every return is strings.Map over the input with a mapping function that keeps a rune only where it is a line feed or unicode.IsControl is known false. A sanitiser-before-sink property is visible in the shape of the code, so one rule instance covers every document, markup type, header line and width at once.",
     note="Trusted: propagate-by-default summaries for library calls (results and written-through arguments), net/url.Parse rejecting control characters and quoting its input in errors, x/net/html copying tag names/attribute keys verbatim, ansi.Scrub's predicate (unicode.IsControl) being the right class. Not decided: terminal-specific interpretation of printable code points.",
     technique="static interprocedural taint (value-flow) analysis over SSA with call/return matching; sanitiser-before-sink",
     ref="DESIGN.md §4 C01"),
   "C03": dict(
-    text="Static path/dominance analysis of jtp.Get and its helpers over SSA: every return of the fetcher is classified (error / cache hit / forwarded recursive result / success) and the success return is shown to be dominated, in order, by the https test, the dial, a checked status-line parse, a status whitelist within 200..203 on every enumerated path, a checked validateHeaders on the request's own tolerated list, and a checked JSON decode of the same stream into the very map returned, with the frame's own URL as source. The redirect budget is shown to strictly decrease under a non-exhaustion guard (one dial and one write per frame, constant budget at call sites), Location is shown to be resolved against the issuing URL with missing Location an error, the content-type rule (at least one tolerated, none untolerated) is checked on validateHeaders' flag protocol, the status regexp's shape is checked with regexp/syntax, the cache is shown to be keyed by every request-shaping parameter, with the complete URL (link.String(): scheme and fragment included) inside the key, and never to store an outcome with a possibly non-nil error; and every string handed to a status/header recogniser or compared with the end-of-head marker is shown to be a complete line: result #0 of (*bufio.Reader).ReadString('\\n') (or a constant) at a point where that call's error is known nil, so a fragment of an over-long or truncated line is never parsed as a header. These are all-paths statements about the code, so they cover every response byte stream and redirect graph.",
+    text="Static path/dominance analysis of jtp.Get and its helpers over SSA: every return of the fetcher is classified (error / cache hit / forwarded recursive result / success) and the success return is shown to be dominated, in order, by the https test, the dial, a checked status-line parse, a status whitelist within 200..203 on every enumerated path, a checked validateHeaders on the request's own tolerated list, and a checked JSON decode of the same stream into the very map returned, with the frame's own URL as source. The redirect budget is shown to strictly decrease under a non-exhaustion guard (one dial and one write per frame, constant budget at call sites), Location is shown to be resolved against the issuing URL with missing Location an error, the content-type rule (at least one tolerated, none untolerated) is checked on validateHeaders' flag protocol, the status regexp's shape is checked with regexp/syntax, the cache is shown to be keyed by every request-shaping parameter, with the complete URL (link.String(): scheme and fragment included) inside the key, and never to store an outcome with a possibly non-nil error; and every string handed to a status/header recogniser or compared with the end-of-head marker is shown to be a complete line: result #0 of (*bufio.Reader).ReadString('\\n') (or a constant) at a point where that call's error is known nil, so a fragment of an over-long or truncated line is never parsed as a header; every singleflight key in the module is shown to be uri.String() of the URL fetched inside. These are all-paths statements about the code, so they cover every response byte stream and redirect graph.",
     note="Trusted: regexp, encoding/json, net/url, lru semantics. Not decided: that the header regexps recognise exactly the HTTP grammar; JSON decoding itself; LRU eviction; behaviour under concurrent identical fetches (singleflight).",
     technique="static must-pass-through (dominance + path enumeration) and table/shape rules over SSA",
     ref="DESIGN.md §4 C03"),
   "C04": dict(
-    text="Static who-may-call, string-template and provenance rules: the whole module is scanned for call sites into network packages (net, crypto/tls, net/http, ... and dynamic Write invokes that VTA resolves to a connection) and they are shown to be exactly the single dial, single Write, Close and deadline calls of jtp.Get; the written bytes are symbolically flattened and compared with the request template over the frame's own URL and Accept value; the dial is shown to be TLS with default verification to JoinHostPort(link.Hostname(), link.Port()|443) under link.Scheme == https; a backward provenance walk over the value-flow graph shows that every *url.URL that can reach jtp.Get is produced by url.Parse / ResolveReference or a literal with constant path parts and an Encode()d query. Covers every URL and handle because it constrains how request bytes can be built at all.",
+    text="Static who-may-call, string-template and provenance rules: the whole module is scanned for call sites into network packages (net, crypto/tls, net/http, ... and dynamic Write invokes that VTA resolves to a connection) and they are shown to be exactly the single dial, single Write, Close and deadline calls of jtp.Get; the written bytes are symbolically flattened and compared with the request template over the frame's own URL and Accept value; the dial is shown to be TLS with default verification to JoinHostPort(link.Hostname(), link.Port()|443) under link.Scheme == https; a backward provenance walk over the value-flow graph shows that every *url.URL that can reach jtp.Get is produced by url.Parse or a literal with constant path parts and an Encode()d query, walking through both operands of ResolveReference / JoinPath (which copy query and fragment of their argument verbatim). Covers every URL and handle because it constrains how request bytes can be built at all.",
     note="Trusted: net/url's escaping and rejection of control characters; a host containing control characters cannot be dialled; crypto/tls verifies with a nil config. Not decided: what the TLS stack itself sends.",
     technique="static call-site inventory (who-may-call), symbolic string template evaluation, backward provenance over the value-flow graph",
     ref="DESIGN.md §4 C04"),
   "C05": dict(
-    text="Static typestate and error-discipline analysis: for every connection value obtained from net/crypto/tls, every Write/Read/hand-off is shown to be dominated by a Set*Deadline call on that value whose argument is derived (backward value-flow) from time.Now() and config.Parsed.Network.Timeout and which is not renewed in a loop; for all ~210 error-returning calls in jtp, client, object, pub and mime the error is shown to be returned, wrapped, converted to a failure item, stored beside its value or classified, and the accompanying values to be used only where the error is known nil (branch facts) or to travel with it; every NewFailure argument is shown non-nil; the response head is parsed from complete lines only (ReadString('\\n') with its error known nil at every use, rule shared with C03.R7), so a head cut off or stalled inside a line ends in an error instead of being acted on. An all-paths argument: it holds for every cut point and stall stage because no path can read without a deadline or drop an error.",
+    text="Static typestate and error-discipline analysis: for every connection value obtained from net/crypto/tls, every Write/Read/hand-off is shown to be dominated by a Set*Deadline call on that value whose argument is derived (backward value-flow) from time.Now() and config.Parsed.Network.Timeout and which is not renewed in a loop; for all ~210 error-returning calls in jtp, client, object, pub and mime the error is shown to be returned, wrapped, converted to a failure item, stored beside its value or classified, and the accompanying values to be used only where the error is known nil (branch facts) or to travel with it; every NewFailure argument is shown non-nil; the response head is parsed from complete lines only (ReadString('\\n') with its error known nil at every use, rule shared with C03.R7), so a head cut off or stalled inside a line ends in an error instead of being acted on; package-level state of the fetch path is written by initialisers only (no map that two concurrent faults could write), and every acquisition on a channel that outlives the call (semaphore slot, token) is shown to be released on every path to every return, the error paths included. An all-paths argument: it holds for every cut point and stall stage because no path can read without a deadline or drop an error.",
     note="Trusted: net.Conn deadline semantics, json.Decoder rejecting truncated objects. Not decided: wall-clock bounds, kernel/TLS behaviour, non-positive configured timeouts (C19).",
     technique="static typestate (deadline-before-I/O dominance) + error-flow discipline over SSA with branch facts",
     ref="DESIGN.md §4 C05"),
@@ -37,17 +37,17 @@ CLAIMED = {
 
 CLAIMED.update({
   "C17": dict(
-    text="Static guard and shape analysis of package object over SSA: every float-to-integer conversion in the module is shown to be dominated by lower/upper range tests (and the integrality test) on the converted value using branch facts; package object is exhaustively scanned for may-panic constructs (non-comma-ok assertions, indexing, slicing, map writes, panics); GetString's value return is shown to be the non-empty result of ansi.Scrub of the checked getPrimitive[string] result, the text accessors to parse only GetString results; every instantiation of getPrimitive is shown to report 'absent' exactly on the missing/null edges, 'wrong type' on the failed assertion and the asserted value on success, no other error to wrap the 'absent' sentinel, and every error to come with zero values; list promotion is shape-checked. These hold for every JSON value because they are facts about all paths of ~140 lines of accessor code.",
+    text="Static guard and shape analysis of package object over SSA: every float-to-integer conversion in the module is shown to be dominated by lower/upper range tests (and the integrality test) on the converted value using branch facts; package object is exhaustively scanned for may-panic constructs (non-comma-ok assertions, indexing, slicing, map writes, panics); GetString's value return is shown to be the non-empty result of ansi.Scrub of the checked getPrimitive[string] result, the text accessors to parse only GetString results; every instantiation of getPrimitive is shown to report 'absent' exactly on the missing/null edges, 'wrong type' on the failed assertion and the asserted value on success, no other error to wrap the 'absent' sentinel, and every error to come with zero values; the document map is read in getPrimitive only; pointer-valued accessors are shown to return non-nil with a nil error through their helpers; ansi.Scrub is shape-checked (every return passes the rune filter); list promotion is shape-checked. These hold for every JSON value because they are facts about all paths of ~140 lines of accessor code.",
     note="Trusted: encoding/json's decoding into float64/[]any/map[string]any; time.Parse, url.Parse and the media-type regexp. Not decided: that the converted integer equals the JSON number's value (value semantics of the conversion inside the guarded range).",
     technique="static guard-dominates-use (branch facts), exhaustive may-panic construct scan, sentinel/table agreement over SSA",
     ref="DESIGN.md §4 C17"),
   "C19": dict(
-    text="Static dominance and table-agreement rules: config.parse is shown to return a configuration only for an empty location, a missing file, or a decode with nil error and no undecoded keys, with defaults stored first into the same object, and the package initialiser to exit non-zero after a diagnostic on every error; every field of Style.Colors (enumerated from the type) is shown to be replaced by hexToAnsi of itself with the error checked, hexToAnsi's slices to be guarded by len == 7 and its parses to be checked base 16; every read of a configuration value anywhere in the module is matched against a consumer table (exhaustive over reads), and for each consumer assumption a rejecting comparison inside package config is found and evaluated on boundary values. Covers every TOML file because acceptance is a property of the code paths, not of sampled files.",
+    text="Static dominance and table-agreement rules: config.parse is shown to return a configuration only for an empty location, a missing file, or a decode with nil error and no undecoded keys, with defaults stored first into the same object, and the package initialiser to exit non-zero after a diagnostic on every error; every field of Style.Colors (enumerated from the type) is shown to be replaced by hexToAnsi of itself with the error checked, hexToAnsi's slices to be guarded by len == 7 and its parses to be checked base 16; every read of a configuration value anywhere in the module is matched against a consumer table (exhaustive over reads), and for each consumer assumption a rejecting comparison inside package config is found and evaluated on boundary values; every scaling of a validated setting by a constant is shown to be dominated by an upper bound that keeps the product inside its type. Covers every TOML file because acceptance is a property of the code paths, not of sampled files.",
     note="Trusted: BurntSushi/toml's decoding and Undecoded(); ParseUint of two hex digits is 0..255. Not decided: TOML parsing itself.",
     technique="static dominance (strict decoding), writer/reader table agreement, consumer-assumption table with boundary evaluation of validating comparisons",
     ref="DESIGN.md §4 C19"),
   "C20": dict(
-    text="Static shape, guard and identity-flow rules on ui.openExternally and its producers: the module is scanned for process-spawning call sites (exactly exec.Command + run in the hook; program not a constant); argv is shown to be element 0 / tail of a slice freshly made with the configured hook's length and filled by one copy from config.Parsed.Media.Hook; every other store into it is shown to be at an index known non-zero, on the equality edge of that very element against a constant placeholder, storing by SSA identity the link parameter or the matching field of the media type; the handled placeholders are compared with readme.md; Stdin is shown to be set only when the %url flag is false and to wrap the link itself; every (link, type, present) producer (Post/Actor/Activity/Failure.SelectLink, Media, Banner, ProfilePic, Link.Select*) is shown to return a non-nil type whenever present is true (value+Err pair guards and producer soundness). All hook configurations and links are covered because substitution is shown to be structurally element-wise and identity-preserving.",
+    text="Static shape, guard and identity-flow rules on ui.openExternally and its producers: the module is scanned for process-spawning call sites (exactly exec.Command + run in the hook; program not a constant); argv is shown to be element 0 / tail of a slice freshly made with the configured hook's length and filled by one copy from config.Parsed.Media.Hook; every other store into it is shown to be at an index known non-zero, on the equality edge of that very element against a constant placeholder, storing by SSA identity the link parameter or the matching field of the media type; the handled placeholders are compared with readme.md; Stdin is shown to be set only when the %url flag is false and to wrap the link itself; every (link, type, present) producer (Post/Actor/Activity/Failure.SelectLink, Media, Banner, ProfilePic, Link.Select*) is shown to return a non-nil type whenever present is true (value+Err pair guards and producer soundness); the only store into Media.Hook in the module is shown to be the default literal of constants. All hook configurations and links are covered because substitution is shown to be structurally element-wise and identity-preserving.",
     note="Trusted: os/exec passes argv verbatim to execve. Not decided: what the OS or the hook program does with the arguments.",
     technique="static shape matching on SSA with branch facts (exact-match substitution), identity-only value flow, non-nil producer analysis",
     ref="DESIGN.md §4 C20"),
@@ -55,7 +55,7 @@ CLAIMED.update({
 
 CLAIMED.update({
   "C11": dict(
-    text="Structural clauses of the feed property, decided statically: a module-wide nil-flow analysis shows that no pointer that may be nil is converted into a pub.Container / pub.Tangible / Any interface at any point where the interface escapes (returned, stored, passed on), using branch facts, value+error producer soundness and an assume-guarantee invariant for dynamically dispatched receivers — so an exhausted feed ends with a real nil; NewSplicer's type switch is compared with the set of dynamic types that can reach FetchUserInput's result in the value-flow graph; an effects analysis shows Splicer.Harvest never writes through its receiver and that buffered items shared with clones are never written in place; replenish is shown to visit every source and to refill exactly the sources whose own buffer is shorter than the requested depth, by the difference; every trip round microharvest's selection loop (all acyclic header-to-header paths, loop-carried values resolved along the path) is classified as keeping the best (allowed only for an empty source / nil head, or an existing best whose timestamp the head's is not After) or replacing it by the current head (only with no best yet, or strictly After: ties stay with the source listed first), nil is returned only where the best is known nil, and the popped source is the one recorded with the best. That these steps compose to an exactly-once merge for every chunking is NOT claimed.",
+    text="Structural clauses of the feed property, decided statically: a module-wide nil-flow analysis shows that no pointer that may be nil is converted into a pub.Container / pub.Tangible / Any interface at any point where the interface escapes (returned, stored, passed on), using branch facts, value+error producer soundness and an assume-guarantee invariant for dynamically dispatched receivers — so an exhausted feed ends with a real nil; NewSplicer's type switch is compared with the set of dynamic types that can reach FetchUserInput's result in the value-flow graph; an effects analysis shows Splicer.Harvest never writes through its receiver and that buffered items shared with clones are never written in place; replenish is shown to visit every source and to refill exactly the sources whose own buffer is shorter than the requested depth, by the difference; every trip round microharvest's selection loop (all acyclic header-to-header paths, loop-carried values resolved along the path) is classified as keeping the best (allowed only for an empty source / nil head, or an existing best whose timestamp the head's is not After) or replacing it by the current head (only with no best yet, or strictly After: ties stay with the source listed first), nil is returned only where the best is known nil, and the popped source is the one recorded with the best; NewSplicer stores the page fetched for inputs[k] at s[k] of a Splicer with one slot per input. That these steps compose to an exactly-once merge for every chunking is NOT claimed.",
     note="Not decided (stated in DESIGN.md and in the evidence): exactly-once and idempotence of a feed position as values over all chunkings; only the per-step selection rule, the refill rule and the no-write/clone discipline are decided. Fan-out race freedom is decided under C08.R5.",
     technique="static nil-flow (typed-nil) analysis with branch facts, dynamic-type set vs. type-switch table agreement, write-set analysis, loop path enumeration with phi resolution (selection step)",
     ref="DESIGN.md §4 C11"),
@@ -78,7 +78,7 @@ CLAIMED.update({
     technique="static provenance (def-use pairing), exhaustive path enumeration with phi resolution in the gatekeeper, backward value-flow walk, who-may-call",
     ref="DESIGN.md §4 C02"),
   "C09": dict(
-    text="Static path-fact rules on the three membership gatekeepers: for the outbox and reply construct closures every return is shown to be either a NewFailure item (never nil: impostors stay in place as error items) or the item built by NewActivity/NewPost from the element handed in, on a path that knows owner id != nil, accessor() != nil and accessor().String() == id.String(); the outbox / replies / comments collections are shown to be built with the matching closure and the owner's id, Collection.construct to be stored only from the constructor parameter, harvest to deliver construct(elements[k], c.id) at its own slot and to pass construct on to the next page; NewPostFromObject's success return is shown to lie behind a loop over all creators (after the fan-out joined) in which every path back to the loop head knows equal hosts with both ids non-nil, or both ids nil; identifier accessors return validated id fields under their error guards, and id fields are stored only from the constructors' id parameter.",
+    text="Static path-fact rules on the three membership gatekeepers: for the outbox and reply construct closures every return is shown to be either a NewFailure item (never nil: impostors stay in place as error items) or the item built by NewActivity/NewPost from the element handed in, on a path that knows owner id != nil, accessor() != nil and accessor().String() == id.String(); the outbox / replies / comments collections are shown to be built with the matching closure and the owner's id, Collection.construct to be stored only from the constructor parameter and every non-nil result of the constructor to be its own allocation (no remembered collection), harvest to deliver construct(elements[k], c.id) at its own slot and to pass construct on to the next page; NewPostFromObject's success return is shown to lie behind a loop over all creators (after the fan-out joined) in which every path back to the loop head knows equal hosts with both ids non-nil, or both ids nil; identifier accessors return validated id fields under their error guards, and id fields are stored only from the constructors' id parameter.",
     note="Assumes the ids compared are the validated ids of C02. Not decided: generated worlds end to end; whether string equality of URLs is the right identity.",
     technique="static path facts (dominating comparisons on accepting paths) in gatekeeper closures, wiring/table agreement, path enumeration in the creators loop",
     ref="DESIGN.md §4 C09"),
@@ -86,7 +86,7 @@ CLAIMED.update({
 
 CLAIMED.update({
   "C10": dict(
-    text="Structural clauses of collection paging, decided statically on harvestWithEmptyCount and its two goroutine closures: the single recursion is shown to be dominated by the false edge of emptyCount > 3 on the very counter cell that is passed on, the counter to be incremented exactly on the page-is-empty edge, every early return to deliver one failure item with a nil continuation; all paths to the recursive spawn are enumerated and on each that does not increment the counter the last assignment is shown to be a constant (consecutive = reset); slot k is shown to receive construct(c.elements[k+startingPoint], c.id) by comparing linear index forms, the result to be this page's slice followed by the recursion's slice, the next page (built from c.next with checked error) to be asked for amount-amountFromThisPage from offset 0; the page names itself as continuation only under length > amount+startingPoint with resume offset amount+startingPoint, otherwise forwards the deeper continuation or nil; in the constructor every path to a store of the following-page link is enumerated and the key read (first / next) is shown to agree with the kind tests passed on that path (first only for (Ordered)Collection, next only for pages). Exactly-once over all layouts is NOT claimed.",
+    text="Structural clauses of collection paging, decided statically on harvestWithEmptyCount and its two goroutine closures: the single recursion is shown to be dominated by the false edge of emptyCount > 3 on the very counter cell that is passed on, the counter to be incremented exactly on the page-is-empty edge, every early return to deliver one failure item with a nil continuation; all paths to the recursive spawn are enumerated and on each that does not increment the counter the last assignment is shown to be a constant (consecutive = reset); slot k is shown to receive construct(c.elements[k+startingPoint], c.id) by comparing linear index forms, the result to be this page's slice followed by the recursion's slice, the next page (built from c.next with checked error) to be asked for amount-amountFromThisPage from offset 0; the page names itself as continuation only under length > amount+startingPoint with resume offset amount+startingPoint, otherwise forwards the deeper continuation or nil; in the constructor every path to a store of the following-page link is enumerated and the key read (first / next) is shown to agree with the kind tests passed on that path (first only for (Ordered)Collection, next only for pages); an effects analysis shows Harvest and everything it calls to write nothing reachable from the collection and no package-level state. Exactly-once over all layouts is NOT claimed.",
     note="Not decided: that the pieces compose to exactly-once/in-order for every layout and chunking, prefix-of-truth on cyclic chains, unsigned arithmetic of amountFromThisPage. Fan-out race freedom: C08.R5.",
     technique="static dominance and path enumeration (counter discipline), linear-form index agreement, continuation-shape matching over SSA",
     ref="DESIGN.md §4 C10"),
@@ -99,7 +99,7 @@ CLAIMED.update({
     technique="static may-panic site enumeration with per-class discharge: branch facts + linear inequalities, regexp/syntax shape analysis, nil-flow, call-graph SCC table",
     ref="DESIGN.md §4 C06"),
   "C07": dict(
-    text="Dispatcher coverage and crash obligations, decided statically: the keys documented in readme.md and in the help text are extracted and compared with the constants Update's dispatcher tests, and each documented key's case body is shown to call what the keymap names (swapped handlers are reported); every explicit panic in ui/feed/history is enumerated and must be one of the discharged ones — view's mode default (constants stored to State.mode ⊆ handled), switchTo's default (every argument's dynamic types handled and non-nil), feed.Get (dominated by Contains of the same offset on the same feed) — ReplaceLastLine is shown to receive only SetLength output; results of the unguarded accessor feed.Current() are shown to be nil-checked before being used as receiver or passed to switchTo; Update is shown to return before touching state while loading. Refinement of the keymap over histories is NOT claimed.",
+    text="Dispatcher coverage and crash obligations, decided statically: the keys documented in readme.md and in the help text are extracted and compared with the constants Update's dispatcher tests, and each documented key's case body is shown to call what the keymap names (swapped handlers are reported); every explicit panic in ui/feed/history is enumerated and must be one of the discharged ones — view's mode default (constants stored to State.mode ⊆ handled), switchTo's default (every argument's dynamic types handled and non-nil), feed.Get (dominated by Contains of the same offset on the same feed) — ReplaceLastLine is shown to receive only SetLength output; results of the unguarded accessor feed.Current() are shown to be nil-checked before being used as receiver or passed to switchTo; Update is shown to return before touching state while loading; every value added to the history is shown to be a Page allocated by the adding function itself (entries never share a page). Refinement of the keymap over histories is NOT claimed.",
     note="Not decided: that cursor/page/mode after an arbitrary key history equal the keymap's prediction, quiescence, History.Current on an empty history (mode/history invariant).",
     technique="static table agreement (documented keymap vs dispatcher), exhaustive panic enumeration with discharge, nil-guard dominance",
     ref="DESIGN.md §4 C07"),
